@@ -1651,3 +1651,11 @@ for (_id, _seed, _prop, _exp, _note) in [
                      'patch': _os.path.join(_SEED, _seed, 'patch.diff'), 'note': _note})
 VARIANTS.append({'id': 'r12-increment-in-debug-assert', 'property': 'C07', 'expect': ['S9'], 'edits': [], 'kind': 'violating',
                  'patch': _os.path.join(_SEED, 'C07-r12', 'patch.diff'), 'note': 'the writer-count increment of Clone for InnerSend written inside debug_assert!'})
+
+# ---- round 13 (held-out round): the three misses that fell to one-line extensions
+for (_id, _seed, _prop, _exp, _note) in [
+        ('r13-uni-receiver-sync', 'C04-r13', 'C04', ['S8'], 'unsafe impl Sync for the single-consumer receiver'),
+        ('r13-start-from-cell-cache', 'C10-r13', 'C10', ['P10a'], 'the new stream starts at a handle-local cached position'),
+        ('r13-unsubscribe-ignores-removal', 'C13-r13', 'C13', ['P9f', 'W7'], 'the explicit unsubscribe of a shared-mode handle ignores the result of remove_reader')]:
+    VARIANTS.append({'id': _id, 'property': _prop, 'expect': _exp, 'edits': [], 'kind': 'violating',
+                     'patch': _os.path.join(_SEED, _seed, 'patch.diff'), 'note': _note})
